@@ -2,9 +2,10 @@
    Statements over the model regenerated from pkg/cast on every run (JL.gen.CastGen);
    proofs in JL.proofs.CastBinary. Nothing but statements, `exact`, and Print Assumptions. *)
 From Coq Require Import ZArith List Bool Lia.
-From JL.std Require Import GoBase GoFloat GoStrconv GoTime GoVal.
-From JL.gen Require Import CastGen.
-From JL.proofs Require Import CastBinary.
+From JL.std Require Import GoBase GoFloat GoStrconv GoTime GoVal GoBase64.
+From JL.gen Require Import CastGen ConvGen.
+From JL.model Require Import Row.
+From JL.proofs Require Import CastBinary BinaryColumn.
 Import ListNotations.
 Open Scope Z_scope.
 
@@ -90,4 +91,119 @@ Proof.
   split; [|reflexivity].
   split; [|discriminate].
   cbn. repeat constructor; unfold is_byte; lia.
+Qed.
+
+(* ------------------------------------------------------------------------------------------
+   The COLUMN (last sentence of C11): importFromBinary / exportToBinary of the model regenerated
+   from pkg/jsonline/conversions_import.go / conversions_export.go (JL.gen.ConvGen), through
+   standard padded base64 (JL.std.GoBase64), and the cell of JL.model.Row (value.go Import /
+   Export). Proofs in JL.proofs.BinaryColumn. Vocabulary (JL.proofs.BinaryColumn):
+     fwkind     = FWInt k (the ten integer kinds) | FWF64 | FWF32
+     fw_sample  = sample k | VF64 0 | VF32 0          (the raw type of the column)
+     fw_size    = size_nat k | 8 | 4
+     fw_decode t pl = VInt k (conv_int k (le_value pl)) | VF64 (le_value pl) | VF32 (le_value pl)
+     fw_sentinel    = sentinel_of k | ErrUnableToCastToFloat64 | ErrUnableToCastToFloat32
+   The oracles O stay abstract and are never consulted on these paths; floats are moved as bit
+   patterns (no float32 <-> float64 conversion), so every NaN payload, signalling ones included,
+   is covered without any premise.
+   ------------------------------------------------------------------------------------------ *)
+
+(* a payload of exactly the type's size is accepted: the column holds the value cast.To decodes
+   from the bytes, a well-formed value whose binary form (little-endian image) is the payload,
+   and re-emits exactly the base64 text of the bytes it accepted *)
+Theorem C11_column_accepts : forall (O : oracles) (t : fwkind) (pl : str),
+  bytes_ok pl -> length pl = fw_size t ->
+  importFromBinary O (VStr (base64_encode pl)) (fw_sample t) = Ok (fw_decode t pl)
+  /\ To O (fw_sample t) (VBytes (mkbytes pl)) = Ok (fw_decode t pl)
+  /\ wf_gval (fw_decode t pl)
+  /\ ToBinary O (fw_decode t pl) = Ok (VBytes (mkbytes pl))
+  /\ exportToBinary O (fw_decode t pl) = Ok (VStr (base64_encode pl)).
+Proof. exact column_accepts. Qed.
+Print Assumptions C11_column_accepts.
+
+(* a payload of any other length (the empty one included) is refused: cast.To answers the type's
+   sentinel, the column wraps it in ErrUnsupportedImportType, and the value keeps nothing of the
+   refused payload — whatever it held before, its raw value is nil afterwards *)
+Theorem C11_column_rejects : forall (O : oracles) (t : fwkind) (pl : str),
+  bytes_ok pl -> length pl <> fw_size t ->
+  To O (fw_sample t) (VBytes (mkbytes pl)) = Err (fw_sentinel t)
+  /\ importFromBinary O (VStr (base64_encode pl)) (fw_sample t) = Err ErrUnsupportedImportType
+  /\ forall (n : nat) (raw : rv),
+       value_import O n raw FBinary (fw_sample t) (RS (VStr (base64_encode pl)))
+       = (CVal rnil FBinary (fw_sample t), Err ErrUnsupportedImportType).
+Proof. exact column_rejects. Qed.
+Print Assumptions C11_column_rejects.
+
+(* the cell CVal raw FBinary T: Import of the JSON string holding the base64 text, then Export.
+   Well sized: no error, the cell holds the decoded value and exports the same text.
+   Otherwise: ErrUnsupportedImportType, the cell holds nil and exports nil.
+   Hence: (no error and the same text comes back) iff the payload has the type's size. *)
+Theorem C11_column_cell : forall (O : oracles) (t : fwkind) (pl : str) (n : nat) (raw : rv) (m : nat),
+  bytes_ok pl ->
+  let text := RS (VStr (base64_encode pl)) in
+  let typ := fw_sample t in
+  let after := value_import O n raw FBinary typ text in
+  (length pl = fw_size t ->
+     after = (CVal (RS (fw_decode t pl)) FBinary typ, Ok tt)
+     /\ cell_export O (S m) (fst after) = Ok text)
+  /\ (length pl <> fw_size t ->
+     after = (CVal rnil FBinary typ, Err ErrUnsupportedImportType)
+     /\ cell_export O (S m) (fst after) = Ok rnil)
+  /\ ((snd after = Ok tt /\ cell_export O (S m) (fst after) = Ok text) <-> length pl = fw_size t).
+Proof. exact column_cell. Qed.
+Print Assumptions C11_column_cell.
+
+(* Value.Import on a *value is value_import (one level of fuel for the interface dispatch) *)
+Theorem C11_column_cell_import : forall (O : oracles) (n : nat) (raw : rv) (f : format) (typ : gval) (v : rv),
+  cell_import O (S n) (CVal raw f typ) v = value_import O n raw f typ v.
+Proof. exact cell_import_value. Qed.
+Print Assumptions C11_column_cell_import.
+
+(* bool: one byte, normalising — any non-zero byte is true and comes back as 01 *)
+Theorem C11_column_bool : forall (O : oracles),
+  (forall x, is_byte x ->
+     importFromBinary O (VStr (base64_encode [x])) (VBool true) = Ok (VBool (negb (x =? 0))))
+  /\ (forall v, exportToBinary O (VBool v) = Ok (VStr (base64_encode [if v then 1 else 0])))
+  /\ (forall pl, bytes_ok pl -> length pl <> 1%nat ->
+        importFromBinary O (VStr (base64_encode pl)) (VBool true) = Err ErrUnsupportedImportType
+        /\ forall n raw,
+             value_import O n raw FBinary (VBool true) (RS (VStr (base64_encode pl)))
+             = (CVal rnil FBinary (VBool true), Err ErrUnsupportedImportType))
+  /\ (forall x n raw m, is_byte x ->
+        let after := value_import O n raw FBinary (VBool true) (RS (VStr (base64_encode [x]))) in
+        after = (CVal (RS (VBool (negb (x =? 0)))) FBinary (VBool true), Ok tt)
+        /\ cell_export O (S m) (fst after)
+           = Ok (RS (VStr (base64_encode [if negb (x =? 0) then 1 else 0])))).
+Proof. exact column_bool. Qed.
+Print Assumptions C11_column_bool.
+
+(* instances, evaluated (the oracles stay abstract: nothing on these paths consults them).
+   A float32 signalling NaN, bytes 01 00 80 7f = bits 0x7f800001, text "AQCAfw==", through a
+   binary(float32) cell that held 7 before: held bit for bit, re-emitted as the same text. *)
+Example C11_column_snan32 : forall (O : oracles),
+  base64_encode [1; 0; 128; 127] = [65; 81; 67; 65; 102; 119; 61; 61]
+  /\ length [1; 0; 128; 127] = fw_size FWF32 /\ bytes_ok [1; 0; 128; 127]
+  /\ fw_decode FWF32 [1; 0; 128; 127] = VF32 2139095041      (* 0x7f800001 *)
+  /\ value_import O 0 (RS (VF32 7)) FBinary (VF32 0) (RS (VStr [65; 81; 67; 65; 102; 119; 61; 61]))
+     = (CVal (RS (VF32 2139095041)) FBinary (VF32 0), Ok tt)
+  /\ cell_export O 1 (CVal (RS (VF32 2139095041)) FBinary (VF32 0))
+     = Ok (RS (VStr [65; 81; 67; 65; 102; 119; 61; 61])).
+Proof.
+  intros O. split; [vm_compute; reflexivity|]. split; [reflexivity|].
+  split; [repeat constructor; unfold is_byte; lia|].
+  split; [vm_compute; reflexivity|]. split; vm_compute; reflexivity.
+Qed.
+
+(* a 3-byte payload 01 02 03, text "AQID", is refused by a binary(int32) cell that held 7: the
+   error is ErrUnsupportedImportType, the cell holds nil afterwards and exports nil *)
+Example C11_column_int32_3bytes : forall (O : oracles),
+  base64_encode [1; 2; 3] = [65; 81; 73; 68]
+  /\ length [1; 2; 3] <> fw_size (FWInt KInt32) /\ bytes_ok [1; 2; 3]
+  /\ value_import O 0 (RS (VInt KInt32 7)) FBinary (VInt KInt32 0) (RS (VStr [65; 81; 73; 68]))
+     = (CVal rnil FBinary (VInt KInt32 0), Err ErrUnsupportedImportType)
+  /\ cell_export O 1 (CVal rnil FBinary (VInt KInt32 0)) = Ok rnil.
+Proof.
+  intros O. split; [vm_compute; reflexivity|]. split; [discriminate|].
+  split; [repeat constructor; unfold is_byte; lia|].
+  split; vm_compute; reflexivity.
 Qed.
